@@ -110,6 +110,78 @@ def gen_tables(rng, n, style):
     return levels, volumes, areas, minrel, maxrel
 
 
+ROUND = [1.0, 2.0, 5.0, 10.0, 20.0, 25.0, 50.0, 100.0, 200.0, 500.0]
+
+
+def structured_increments(rng, m, kind):
+    """m positive increments (in units) with STRUCTURE: exact coincidences between increments, between partial
+    sums and between end increments and the mean increment - what summaries of a table cannot tell apart"""
+    if kind == 'regular' or m < 2:
+        return [1.0] * m
+    if kind == 'round-set':
+        vals = rng.sample(ROUND, rng.randint(2, 4))
+        return [rng.choice(vals) for _ in range(m)]
+    if kind == 'one-off':
+        inc = [2.0] * m
+        inc[rng.randrange(1, m - 1) if m >= 3 else rng.randrange(m)] = rng.choice([1.0, 3.0, 4.0, 0.5, 10.0])
+        return inc
+    if kind == 'ends-mean':
+        # first and last increment equal the mean increment, interior ones differ (interior knots of a regular
+        # table moved): interior increments 2+-d in pairs, sum preserved exactly
+        inc = [2.0] * m
+        interior = list(range(1, m - 1))
+        rng.shuffle(interior)
+        for a, b in zip(interior[0::2], interior[1::2]):
+            d = rng.choice([1.0, 0.5, 1.5, 1.0])
+            inc[a] -= d; inc[b] += d
+            if rng.random() < 0.4:
+                break
+        return inc
+    if kind == 'geometric':
+        r = rng.choice([2.0, 1.5, 3.0, 0.5])
+        return [r ** k for k in range(m)]
+    return [1.0] * m
+
+
+STRUCT_KINDS = ['regular', 'round-set', 'round-set', 'one-off', 'ends-mean', 'ends-mean', 'geometric']
+
+
+def structured_column(rng, n, unit, start=0.0, kind=None, zeros=0):
+    """non-decreasing column of n values: [zeros] leading repeats of start, then structured increments * unit"""
+    kind = kind or rng.choice(STRUCT_KINDS)
+    inc = [0.0] * zeros + structured_increments(rng, n - 1 - zeros, kind)
+    col, cur = [start], start
+    for d in inc:
+        cur += d * unit
+        col.append(cur)
+    return col, kind
+
+
+def gen_structured_tables(rng, n):
+    """tables built from structured increments in every column (round units, so the sums are exact in binary64)"""
+    unit = rng.choice([1.0, 2.0, 5.0]) * 10 ** rng.randint(2, 6)
+    dead = rng.choice([0.0, 0.0, unit, 10 * unit])
+    volumes, vkind = structured_column(rng, n, unit, dead)
+    levels, _ = structured_column(rng, n, rng.choice([0.1, 0.5, 1.0, 2.0]), rng.choice([0.0, 100.0]))
+    areas, _ = structured_column(rng, n, rng.choice([1.0, 5.0]) * 10 ** rng.randint(1, 4), rng.choice([0.0, 0.0, 1000.0]),
+                                 zeros=rng.choice([0, 0, 1]) if n > 3 else 0)
+    cap = volumes[-1]
+    q = cap / 86400.0
+    runit = float('%.1g' % (q * rng.choice([0.01, 0.1, 1.0])))          # one significant digit
+    minrel, _ = structured_column(rng, n, runit, 0.0, zeros=rng.randint(0, n - 2))
+    extra, _ = structured_column(rng, n, runit, rng.choice([0.0, runit]))
+    maxrel = [a + b for a, b in zip(minrel, extra)]
+    return levels, volumes, areas, minrel, maxrel, vkind
+
+
+def on_knots(rng, xs):
+    """a value exactly on a table knot or exactly midway between two neighbouring knots"""
+    k = rng.randrange(len(xs))
+    if rng.random() < 0.5 or k == len(xs) - 1:
+        return xs[k]
+    return 0.5 * (xs[k] + xs[k + 1])
+
+
 def gen_series(rng, regime, T, cap, dt, maxrel_top):
     q = cap / 86400.0                                    # flow that fills the reservoir in a day
     rain, pet, inflow, demand = [], [], [], []
@@ -170,12 +242,21 @@ def add_idle_spells(rng, rain, pet, inflow, demand):
 
 
 def make_case(rng, quick):
-    n = rng.choice([2, 2, 3, 3, 4, 5, 6])
-    style = rng.choice(['spillway', 'spillway', 'general', 'general', 'flat', 'wet-bottom', 'crest', 'crest'])
-    levels, volumes, areas, minrel, maxrel = gen_tables(rng, n, style)
+    structured = rng.random() < 0.25
+    if structured:
+        # STRUCTURED tables (a quarter of the cases), mostly 5..12 rows
+        n = rng.choice([2, 3, 4, 5, 5, 6, 6, 7, 8, 9, 10, 12])
+        levels, volumes, areas, minrel, maxrel, vkind = gen_structured_tables(rng, n)
+        style = 'structured-' + vkind
+    else:
+        n = rng.choice([2, 2, 3, 3, 4, 5, 6])
+        style = rng.choice(['spillway', 'spillway', 'general', 'general', 'flat', 'wet-bottom', 'crest', 'crest'])
+        levels, volumes, areas, minrel, maxrel = gen_tables(rng, n, style)
     dt = rng.choice([86400.0, 86400.0, 86400.0, 3600.0, 43200.0, 600.0, 60.0, 6.0, 1.0, float(rng.randint(1, 86400)),
                      rng.uniform(1, 86400)])
     T = rng.choice([0, 1, 2, 3, 7, 12, 25] if quick else [0, 1, 2, 7, 25, 60, 200])
+    if structured and rng.random() < 0.4:
+        T = rng.choice([0, 0, 1, 2])            # at rest / short: the returned level and area are read near the initial volume
     regime = rng.choice(['fill', 'drawdown', 'steady', 'rain', 'pulse', 'cycle', 'mixed', 'mixed'])
     cap = volumes[-1]
     # flows are scaled so that q fills the reservoir in one day, or (half of the cases) in one time step
@@ -184,6 +265,13 @@ def make_case(rng, quick):
     idle = add_idle_spells(rng, rain, pet, inflow, demand)
     v0 = rng.choice([0.0, volumes[0], cap, cap * 1.3, cap * rng.random(), cap * rng.random(), cap * 0.999, cap * 0.01,
                      cap * rng.uniform(0.5, 1.0)])
+    if structured:
+        # volumes and demands exactly ON table knots and exactly midway between them
+        if rng.random() < 0.7:
+            v0 = on_knots(rng, volumes)
+        for t in range(T):
+            if demand[t] != 0.0 and rng.random() < 0.4:
+                demand[t] = on_knots(rng, rng.choice([minrel, maxrel]))
     tmc = [rng.choice([0.0, cap * 0.1])] * T
     return {'kind': 'valid', 'style': style, 'regime': regime, 'dt': dt, 'n': n, 'levels': levels, 'volumes': volumes,
             'areas': areas, 'minrel': minrel, 'maxrel': maxrel, 'v0': v0, 'rain': rain, 'pet': pet, 'inflow': inflow,
@@ -622,6 +710,12 @@ def main():
     cases += malformed_cases(rng, 60 if quick else 600)
     lines = [case_line(x) for x in cases]
     stats = evaluate(c, cases, lines)
+    kinds = {}
+    for x in cases:
+        if str(x.get('style', '')).startswith('structured-'):
+            kinds[x['style']] = kinds.get(x['style'], 0) + 1
+    stats['structured_table_cases'] = kinds
+    stats['structured_table_cases_5plus_rows'] = sum(1 for x in cases if str(x.get('style', '')).startswith('structured-') and x['n'] >= 5)
     longs = long_cases(5) if quick else long_cases(5) + long_cases(8)
     stats.update(evaluate_long(c, longs, [case_line(x) for x in longs]))
     if not quick and not c.proof_broken:
